@@ -81,14 +81,14 @@ LEVEL_TEXT["C12"] = ("Theorems over the stated pool model: per repetition the ma
                      "unseeded graph generator).")
 LEVEL_TEXT["C14"] = ("Theorems: the ranking is duplicate-free, sorted by size and exactly the masks with ≤ min(limit, m) bits (every m, limit); construction succeeds iff the rank table covers every id "
                      "(with decided witnesses of the two pre-fix defects); regret matching at a node yields a distribution supported on unused coalitions; the added regret is orthogonal to the "
-                     "strategy; plus-clipping keeps regret ≥ 0; average strategy is a distribution with the same support rule; load∘save = id. The induction over the two passes of a whole "
-                     "iteration is _partial (node step, base case and frame proved). Tie: real GameRegretMinimizer vs the exact Rat model, structure exact, float32 numbers within 1e-5.")
+                     "strategy; plus-clipping keeps regret ≥ 0; average strategy is a distribution with the same support rule; load∘save = id. By induction over every "
+                     "history of iterations with non-negative terminal values (tree_invariant, every n ≥ 2, every limit, plain / plus) these hold at every node of every reachable state. Tie: real GameRegretMinimizer vs the exact Rat model, structure exact, float32 numbers within 1e-5.")
 LEVEL_TEXT["C15"] = ("Theorems for every n and ordered field: the in-place singleton-by-singleton loop equals the closed form w = v − Σ singletons; w is superadditive, ≥ 0, monotone, so w/w(N) ∈ [0,1] "
                      "with singletons 0 and grand 1, superadditive again; w(N) = 0 ⇒ w ≡ 0; graph game and its table normalise to the same values; denormalize∘normalize = id. Tie: exact stream "
                      "(strings) in both representations + float stream over every generator family with the property clauses as oracle.")
 LEVEL_NOTE["C12"] = LEVEL_NOTE["default"] + " multiprocessing.Pool chunking / pickling is modelled from measurements (DESIGN 3.6), not verified; the theorems quantify over all chunkings."
 LEVEL_NOTE["C11"] = LEVEL_NOTE["C12"]
-LEVEL_NOTE["C14"] = LEVEL_NOTE["default"] + " float32 arithmetic is outside the theorems; the whole-iteration induction is partial (see evidence assumptions)."
+LEVEL_NOTE["C14"] = LEVEL_NOTE["default"] + " float32 arithmetic is outside the theorems."
 LEVEL_NOTE["C10"] = LEVEL_NOTE["default"] + " That numpy distributions stay in their documented ranges, and networkx graph generators, are trusted."
 TECHNIQUE["C12"] = "Lean 4 theorems over a process-pool model (all chunkings) + differential runs of the real evaluate() across worker counts"
 TECHNIQUE["C11"] = "Lean 4 theorems (enumeration, value, all chunkings) + differential runs of the real search across worker counts"
